@@ -269,3 +269,54 @@ def site_replay(kind):
 
 nla_site.replay = site_replay('nla')
 chic_site.replay = site_replay('chic')
+
+
+# ------------------------------------------------------------------------------ Fragment.__init__: the homopolymer rejection is the same
+# for a fragment and for its mirror image on the reverse-complemented reference (a run of A <-> T, C <-> G): both
+# orientations of one cut are accepted or rejected together.  Block contract on the rejection test itself.
+import ast as _ast      # noqa: E402
+from pyvc import blocks as _blocks      # noqa: E402
+from pyvc.engine import Obj as _Obj     # noqa: E402
+FF = 'singlecellmultiomics/fragment/fragment.py'
+
+
+def homopolymer_block(f):
+    c = _blocks.find_nodes(f, lambda n: isinstance(n, _ast.If) and 'max_NUC_stretch' in _ast.unparse(n.test))
+    return c[:1]
+
+
+def hp_setup(eng):
+    eng.ghost.clear()
+    eng.ghost['rejected'] = []
+    eng.spec_env['GHOST'] = eng.ghost
+    eng.loader.call_hooks['singlecellmultiomics.fragment.fragment.Fragment.set_rejection_reason'] = \
+        lambda e, f, a, k, n: e.ghost['rejected'].append(a[0])
+
+
+def hp_self(eng, name):
+    return _Obj('Fragment', {'max_NUC_stretch': 18, 'qcfail': False}, info=eng.loader.classref(FF, 'Fragment'))
+
+
+def hp_read(eng, name):
+    o = _Obj('ReadSeq', {'seq': named(STR, 'read_sequence')})
+    o.vc_immutable = True
+    return o
+
+
+RUN = lambda b: '(("%s" * 18) in read.seq)' % b
+homopolymer = Contract(
+    PROP, FF + '::Fragment.__init__', name='Fragment.__init__[homopolymer rejection is strand symmetric]',
+    block=homopolymer_block,
+    params={'self': hp_self, 'read': hp_read},
+    setup=hp_setup,
+    ensures={
+        'rejected_iff_a_run_of_any_of_the_four_bases': 'self.qcfail == (%s or %s or %s or %s)' % (RUN('A'), RUN('C'), RUN('G'), RUN('T')),
+        'rejection_reason_recorded_with_the_flag': '(GHOST["rejected"] == ["HomoPolymer"]) == self.qcfail',
+        # mirror image: a run of X in the read is a run of complement(X) in the mirrored read
+        'a_run_and_its_complement_are_treated_alike':
+            'implies(%s or %s, self.qcfail) and implies(%s or %s, self.qcfail)' % (RUN('A'), RUN('T'), RUN('C'), RUN('G')),
+    },
+    raises={},
+    assumptions=['max_NUC_stretch = 18 (the scCHIC setting); the block ends the read loop with `break` when it rejects'],
+)
+UNITS.append(homopolymer)
